@@ -269,6 +269,47 @@ theorem strip_dt2strCs (t : Int) : strip (dt2strCs t) = dt2strCs t := by
         intros; rfl
       rw [e]; exact strip_id _ _ _ (digit_not_ws _) (digit_not_ws _)
 
+/-! ### blanks around the separators (`squeeze`) -/
+
+theorem squeezeGo_noblank (after : Bool) (cs : List Char) (h : ∀ c ∈ cs, c ≠ ' ') : squeezeGo after false cs = cs := by
+  induction cs generalizing after with
+  | nil => rfl
+  | cons c r ih =>
+    have hc : c ≠ ' ' := h c (by simp)
+    simp only [squeezeGo, hc, if_false, Bool.false_and, Bool.false_eq_true]
+    rw [ih _ (fun x hx => h x (by simp [hx]))]
+
+theorem ofNat_digit_ne_blank : ∀ k, k < 10 → Char.ofNat (48 + k) ≠ ' ' := by decide
+theorem digit_ne_blank (n : Nat) : digit n ≠ ' ' := ofNat_digit_ne_blank (n % 10) (Nat.mod_lt _ (by omega))
+
+/-- the text `dt2str` writes has no blank: `squeeze` leaves it alone -/
+theorem squeeze_dt2strCs (t : Int) : squeeze (dt2strCs t) = dt2strCs t := by
+  apply squeezeGo_noblank
+  intro c hc
+  unfold dt2strCs at hc
+  simp only [] at hc
+  have hd : ∀ n, digit n ≠ ' ' := digit_ne_blank
+  split at hc
+  · simp only [pad4, pad2, List.mem_append, List.mem_cons, List.not_mem_nil, or_false] at hc
+    rcases hc with (((h | h | h | h) | (h | h)) | (h | h)) <;> rw [h] <;> first | exact hd _ | decide
+  · split at hc
+    · simp only [pad4, pad2, List.mem_append, List.mem_cons, List.not_mem_nil, or_false, List.cons_append, List.nil_append] at hc
+      rcases hc with h | h | h | h | h | h | h | h | h | h | h | h | h | h | h | h | h | h | h <;> rw [h] <;> first | exact hd _ | decide
+    · simp only [pad4, pad2, pad6, List.mem_append, List.mem_cons, List.not_mem_nil, or_false, List.cons_append, List.nil_append] at hc
+      rcases hc with h | h | h | h | h | h | h | h | h | h | h | h | h | h | h | h | h | h | h | h | h | h | h | h | h | h <;>
+        rw [h] <;> first | exact hd _ | decide
+
+theorem ofNat_digit_ne_seps : ∀ k, k < 10 → Char.ofNat (48 + k) ≠ '/' ∧ Char.ofNat (48 + k) ≠ '-' := by decide
+theorem digit_ne_slash (n : Nat) : digit n ≠ '/' := (ofNat_digit_ne_seps (n % 10) (Nat.mod_lt _ (by omega))).1
+theorem digit_ne_dash (n : Nat) : digit n ≠ '-' := (ofNat_digit_ne_seps (n % 10) (Nat.mod_lt _ (by omega))).2
+
+/-- the tight padded text `aa<sep>bb<sep>yyyy` (any of the four separators, also the blank) is left alone by `squeeze` -/
+theorem squeeze_padded (a b y : Nat) (s1 s2 : Char) (h1 : isDateSep s1 = true) (h2 : isDateSep s2 = true) :
+    squeeze (pad2 a ++ s1 :: (pad2 b ++ s2 :: (pad4 y ++ []))) = pad2 a ++ s1 :: (pad2 b ++ s2 :: (pad4 y ++ [])) := by
+  have b0 := digit_ne_blank; have b1 := digit_ne_slash; have b2 := digit_ne_dash
+  rcases sep_cases s1 h1 with rfl | rfl | rfl | rfl <;> rcases sep_cases s2 h2 with rfl | rfl | rfl | rfl <;>
+    simp [squeeze, squeezeGo, pad2, pad4, b0, b1, b2]
+
 theorem mkDateChecked_cases (y m d : Int) : (∃ t, mkDateChecked y m d = .ok t) ∨ mkDateChecked y m d = .error .value := by
   unfold mkDateChecked; split
   · exact Or.inl ⟨_, rfl⟩
